@@ -45,12 +45,12 @@ Section SessionInv.
     match goal with |- context [if ?b then _ else _] => destruct b end; cbn; auto.
   Qed.
 
-  Lemma create_or_get_world k w :
-    let w' := fst (create_or_get I k w) in
+  Lemma create_or_get_world k al w :
+    let w' := fst (create_or_get I k al w) in
     core w' = core w /\ filt w' = filt w /\ wcache w' = wcache w.
   Proof.
     unfold create_or_get, bind, get. cbn.
-    destruct (find_sub (objs w) k (subs w)); [cbn; auto|apply new_observer_world].
+    destruct (find_sub (objs w) k al (subs w)); [cbn; auto|apply new_observer_world].
   Qed.
 
   Lemma unsubscribe_world i (w : wld) :
